@@ -6,6 +6,7 @@ import (
 	"fmt"
 	"net"
 	"strings"
+	"sync"
 	"testing"
 	"testing/synctest"
 	"time"
@@ -20,8 +21,11 @@ import (
 // In09 is one hostile datagram for the client.
 type In09 struct {
 	Data   string `json:"data_hex"`
-	From   string `json:"from"` // server | stun | stranger
+	From   string `json:"from"`   // server | stun | stranger
 	Direct bool   `json:"direct"` // call Client.HandleInbound directly (else: through the socket and Client.Listen)
+	// Pending: the datagram is a response that carries the transaction id of a request the client
+	// has pending at that very moment (the harness reads the id off the wire); Data is ignored
+	Pending string `json:"pending,omitempty"` // "" | success | error | garbled
 }
 
 // C09Case is the client-side hostile input case; also the replay format.
@@ -62,6 +66,9 @@ func runC09Inner(c *C09Case) (res c09Result) { //nolint:cyclop,gocyclo
 	caddr := &net.UDPAddr{IP: net.IPv4(10, 1, 0, 1), Port: 5000}
 	cs := &C13Case{PermReact: []string{"ok"}, BindReact: []string{"ok"}}
 	srv := &c13Server{sock: ssock, client: caddr, c: cs, permOK: map[string]bool{}, bound: map[uint16]string{}, reqChan: map[uint16]string{}, peerChan: map[string]uint16{}, sent: map[string][][]byte{}}
+	var hmu sync.Mutex
+	hold, heldSeen := false, false
+	var heldTx [12]byte
 	serve := func(s *sim.UDPSock) {
 		buf := make([]byte, 70000)
 		for {
@@ -72,6 +79,15 @@ func runC09Inner(c *C09Case) (res c09Result) { //nolint:cyclop,gocyclo
 			if s == ssock {
 				srv.handle(append([]byte{}, buf[:k]...))
 			} else if m, perr := ref.Parse(buf[:k]); perr == nil && m.Method == ref.MethodBinding {
+				hmu.Lock()
+				h := hold
+				if h {
+					heldTx, heldSeen = m.TxID, true
+				}
+				hmu.Unlock()
+				if h {
+					continue // answered later (retransmissions follow)
+				}
 				r := &ref.Msg{Method: ref.MethodBinding, Class: ref.ClassSuccess, TxID: m.TxID}
 				r.Add(ref.AttrXORMappedAddress, ref.XorAddr(caddr.IP, caddr.Port, m.TxID))
 				_, _ = s.WriteTo(r.Encode(), caddr)
@@ -152,6 +168,51 @@ func runC09Inner(c *C09Case) (res c09Result) { //nolint:cyclop,gocyclo
 		fromAddr := &net.UDPAddr{IP: from.Local().IP, Port: from.Local().Port}
 		ctx := fmt.Sprintf("input %d (%d bytes %s… from %s, direct=%v, state %s)", i, len(data), in.Data[:min(len(in.Data), 24)], in.From, in.Direct, c.State)
 		time.Sleep(1700 * time.Microsecond)
+		if in.Pending != "" {
+			// a Binding transaction is pending (the STUN server keeps quiet for now) ...
+			hmu.Lock()
+			hold, heldSeen = true, false
+			hmu.Unlock()
+			done := make(chan error, 1)
+			go func() {
+				_, e := cl.SendBindingRequest()
+				done <- e
+			}()
+			synctest.Wait()
+			hmu.Lock()
+			seen, tx := heldSeen, heldTx
+			hmu.Unlock()
+			if seen {
+				// ... and somebody sends a response with exactly that transaction id
+				r := &ref.Msg{Method: ref.MethodBinding, Class: ref.ClassSuccess, TxID: tx}
+				switch in.Pending {
+				case "error":
+					r.Class = ref.ClassError
+					r.Add(ref.AttrErrorCode, []byte{0, 0, 4, 0})
+				case "garbled":
+					r.Add(ref.AttrXORMappedAddress, []byte{0, 1, 2})
+				default:
+					r.Add(ref.AttrXORMappedAddress, ref.XorAddr(net.IPv4(6, 6, 6, 6), 666, tx))
+				}
+				_, _ = from.WriteTo(r.Encode(), caddr)
+				synctest.Wait()
+			}
+			hmu.Lock()
+			hold = false
+			hmu.Unlock()
+			time.Sleep(12 * time.Second) // retransmissions reach the STUN server, which answers now
+			synctest.Wait()
+			select {
+			case <-done:
+			default:
+				fail("client-hangs-after-hostile-datagram", "%s: the pending Binding transaction neither completed nor failed within 12 s after a response with its transaction id came from %s", ctx, in.From)
+			}
+			if res.kind == "" {
+				probe(ctx + " [response for a pending transaction]")
+			}
+
+			continue
+		}
 		if in.Direct {
 			type ret struct {
 				handled bool
@@ -264,6 +325,9 @@ func genIn09(rt *rapid.T) In09 {
 		data = m.Encode()
 	}
 	in.Data = hex.EncodeToString(data)
+	if rapid.IntRange(0, 7).Draw(rt, "pending") == 0 {
+		in.Pending = rapid.SampledFrom([]string{"success", "error", "garbled"}).Draw(rt, "pendingKind")
+	}
 
 	return in
 }
